@@ -18,4 +18,12 @@ func init() {
 		Desc:     "a burst of n > 100 events dispatched while the hub goroutine is held inside a slow monitor (symbolic gate): the 100-slot operation queue fills and the dispatcher waits; afterwards the monitor has every event once and in order, and a late monitor gets the retained history",
 		Bounds:   "params (burst size n, history length); one slow monitor, one dispatcher goroutine; run-to-block scheduling plus the gate",
 	})
+	register(Harness{
+		Prop: "C15", Pkg: "rest", Func: "VerifC15CloseRace", ExtraPkgs: []string{"msghub"}, InitPkgs: []string{"msghub"},
+		Quick:    [][]int64{{2}},
+		Thorough: [][]int64{{0}, {2}},
+		Unwind:   40,
+		Desc:     "a monitor disconnects while events are queued in the hub ahead of its unregistration (hub held inside a slow monitor by a symbolic gate): the other monitor still receives every event, in order, and the hub keeps working",
+		Bounds:   "param (history length); three monitors (leaving, staying, slow), two events around the disconnect; gate = hub busy or not; natively repeated 24 times (map iteration order of the hub's listeners)",
+	})
 }
